@@ -59,6 +59,7 @@ def run(repo, chk):
     chk.decline("byte-exact prefix delivery, absence of gaps / repeats and eventual delivery as such (relations over runtime byte strings and schedules); R1-R4 are the structural necessary conditions")
     sites = r1(repo, chk)
     r1b(repo, chk, sites)
+    r5(repo, chk)
     r2(repo, chk)
     r3(repo, chk)
     r4(repo, chk)
@@ -285,6 +286,43 @@ def _enclosing(n, typ):
             return p
         p = getattr(p, "_parent", None)
     return None
+
+
+def r5(repo, chk):
+    """reordering tolerance of state a late packet could roll back"""
+    chk.rule("R5", "a reordered (late) packet cannot roll state back: the peer's flow-control limits only grow (the C06-R2 obligations), and the active network path changes only for a non-probing packet that carries the highest packet number seen so far")
+    from . import c06
+
+    class Sub:
+        n = 0
+
+        def ob(self, rule, key, ok, msg="", loc="", detail=None):
+            if "only ever raises the peer's limit" in key:
+                Sub.n += 1
+                return chk.ob("R5", key, ok, msg or "a delayed MAX_DATA / MAX_STREAM_DATA / MAX_STREAMS frame lowers the limit again: sender and receiver then wait for each other until the idle timeout", loc, detail)
+            return ok
+
+        def count(self, *a):
+            pass
+
+        def rule(self, *a):
+            pass
+
+        def decline(self, *a):
+            pass
+
+    c06.r2(repo, Sub())
+    if Sub.n < 3:
+        raise AnalysisError(f"C01-R5: only {Sub.n} limit-monotonicity obligations were generated")
+    rd = Fn(repo, CONN + "receive_datagram")
+    moves = [c for c in rd.calls(name="self._network_paths.insert") if c.args and norm(c.args[0]) == "0"]
+    chk.ob("R5", "receive_datagram promotes a network path in one place", len(moves) == 1, f"{len(moves)} insert(0, ...) calls on _network_paths", rd.loc(rd.node))
+    for c in moves:
+        lg = set(rd.lexical_guards(c, expand=False))
+        want = {("idx", True), ("is_probing", False), natom("packet_number > space.largest_received_packet")}
+        chk.ob("R5", "the active path changes only for a non-probing packet with the highest packet number seen so far", want <= lg, f"guards {sorted(lg)}: a delayed packet from the old address makes the endpoint send to that (dead) address again", rd.loc(c))
+        ups = [st for st, t, v in rd.assigns(suffix="largest_received_packet") if norm(v) == "packet_number"]
+        chk.ob("R5", "the promotion test reads largest_received_packet before this packet updates it", bool(ups) and all(c.lineno < st.lineno for st in ups), "", rd.loc(c))
 
 
 def r2(repo, chk):
